@@ -239,7 +239,9 @@ class Compiler:
         return code
 
 
-def compile_rwlock(path='/repo/pymap/concurrent.py', cls='_AsyncioReadWriteLock'):
+def compile_rwlock(path=None, cls='_AsyncioReadWriteLock'):
+    import os
+    path = path or os.path.join(os.environ.get('VERIF_REPO') or '/repo', 'pymap/concurrent.py')
     src = open(path).read()
     tree = ast.parse(src)
     cd = next((n for n in ast.walk(tree) if isinstance(n, ast.ClassDef) and n.name == cls), None)
